@@ -364,18 +364,6 @@ Section Methods.
   Hypothesis H : HR K R hs hm.
   Hypothesis Hsmall : small K hs.
 
-  Ltac two_heap_vals Ha Hb :=
-    match type of Ha with
-    | R ?l ?l' =>
-        match type of Hb with
-        | R ?k ?k' =>
-            let o := fresh "o" in let o' := fresh "o'" in let p := fresh "p" in let p' := fresh "p'" in
-            let A1 := fresh "A" in let A2 := fresh "A" in let A3 := fresh "A" in
-            let B1 := fresh "B" in let B2 := fresh "B" in let B3 := fresh "B" in
-            idtac
-        end
-    end.
-
   Lemma w_arith_rel : forall sym chk a a' b b', val_rel R a a' -> val_rel R b b' ->
     w_arith (deref_heap hs) orc sym chk (encode a) (encode b)
     = w_arith (deref_heap hm) orc sym chk (encode a') (encode b').
